@@ -42,6 +42,11 @@ def check(run):
                 npairs += 1
                 acc.check_plain_valid(run, models[pn], models[vn])
         run.floor('SIB.plain-valid', 'plain / null-aware kernel pairs', npairs, 8)
+    if run.tier == 'thorough':
+        import casrules
+        run.rule('CAS.form', casrules.RULE)
+        n = casrules.check_rolling(run, run.facts('base'), ('features.rs',))
+        run.floor('CAS.form', 'closed forms compared with their reference', n, 14)
     return run.finish(
         'other',
         'Structural necessary conditions for "the window state never drifts": for each of the '
